@@ -23,6 +23,10 @@ pub fn shapes(rng: &mut Rng) -> Vec<(&'static str, String)> {
         ("binary-kept-across-iterations", "f = #['int, 'bin, 'bin] { | =[0, keep, b] => [keep, b] __binary_concat__ __binary_length__ | =[n, keep, b] => [[n, 1] __integer_subtract__, keep, [0x0102, n] __binary_append_one__] ^ }, 1".into()),
         ("tuple-rebuilt-per-iteration", "f = #[n: 'int, acc: ['int, 'int]] { | =[n: 0, acc: a] => a | =[n: n, acc: [p, q]] => [n: [n, 1] __integer_subtract__, acc: [q, [p, 1] __integer_add__]] ^ }, [n: {N}, acc: [0, 0]] f".into()),
         ("string-hole-per-iteration", "f = #['int, Str['bin]] { | =[0, s] => s | =[n, s] => [[n, 1] __integer_subtract__, \"x{\"y\"}\"] ^ }, [{N}, \"\"] f".into()),
+        // nilary loops: `^` in a function of nil (the argument on the stack is the flowing value)
+        ("nilary-receive-loop-in-a-process", "c = @#{ !'int { | =0 => 99 | [] ^ } }, send = #['int, (@'int)] { | =[0, p] => { 0 p, 0 } | =[n, p] => { n p, [[n, 1] __integer_subtract__, &p] ^ } }, [{N}, &c] send, !c".into()),
+        ("nilary-receive-loop-with-flowing-value", "c = @#{ !'int { | =0 => 99 | ^ } }, send = #['int, (@'int)] { | =[0, p] => { 0 p, 0 } | =[n, p] => { n p, [[n, 1] __integer_subtract__, &p] ^ } }, [{N}, &c] send, !c".into()),
+        ("nilary-loop-draining-own-mailbox", "me = &., fill = #['int, (@'int)] { | =[0, p] => { 0 p, 0 } | =[n, p] => { n p, [[n, 1] __integer_subtract__, &p] ^ } }, [{N}, &me] fill, drain = #{ !'int { | =0 => 7 | [] ^ } }, drain".into()),
         ("receive-loop-one-message-per-iteration", "c = {N} @#'int { | =0 => 99 | n = $, i = !'int, [n, 1] __integer_subtract__ ^ }, send = #['int, (@'int)] { | =[0, p] => 0 | =[n, p] => { n p, [[n, 1] __integer_subtract__, &p] ^ } }, [{N}, &c] send, !c".into()),
         ("receive-loop-binary-messages", "c = {N} @#'int { | =0 => 99 | n = $, i = !'bin, [n, i __binary_length__] __integer_subtract__ ^ }, send = #['int, (@'bin)] { | =[0, p] => 0 | =[n, p] => { [0x, 0x07] __binary_concat__ p, [[n, 1] __integer_subtract__, &p] ^ } }, [{N}, &c] send, !c".into()),
         ("process-receive-loop", "me = &., p = me @#(@'int) { | =parent => { i = !'int, { | i =0 => 0 | [i, 0] __integer_add__ parent, parent ^ } } }, {N} ping = #['int] { $ }, 1".into()),
@@ -72,4 +76,4 @@ pub fn check(rep: &Report) {
 
 pub const RULE: &str = "tail-recursive shape templates (self `^` in a function body, in a consequence with an accumulator, inside blocks nested three deep, after bindings in the same branch, after failed matches in earlier branches, named `^self` through a passed function incl. after a binding, `^~` on the exit path, a binary created and dropped per iteration, a tuple rebuilt per iteration, a string with a hole per iteration) x random loop bodies x N in {200, 500, 1000}, each executed at N and at 50N on a fresh worker with profiling on; oracle: Executor.stats peak_frame_count / peak_locals_size / peak_stack_size identical at N and 50N, and heap slots at 50N <= slots at N + 2. distinct_nontrivial = distinct shape programs measured";
 pub const ASSUME: &[&str] = &["both runs are past warm-up, so equal steady-state peaks are expected exactly", "the bytecode-level counterpart (tail call with surplus operands) is enforced on every emitted function by C07"];
-pub const SITUATIONS: &[&str] = &["shape=self-in-body", "shape=self-in-nested-blocks", "shape=named-variable-target", "shape=binary-created-and-dropped-per-iteration", "shape=ripple-target-then-loop", "shapes_constant_space_confirmed"];
+pub const SITUATIONS: &[&str] = &["shape=self-in-body", "shape=self-in-nested-blocks", "shape=named-variable-target", "shape=binary-created-and-dropped-per-iteration", "shape=ripple-target-then-loop", "shape=nilary-receive-loop-in-a-process", "shapes_constant_space_confirmed"];
